@@ -230,6 +230,7 @@ CLAIMS = {
 
 
 def manifest(built):
+    from .model import NORMAL_FORM_PROPS
     checks = []
     for pid in sorted(built):
         tech, text, note, ref = CLAIMS[pid]
@@ -241,7 +242,9 @@ def manifest(built):
             'replay_cmd_template': '/venv/bin/python -m sa.cli replay {path}',
             'engine': 'sa',
             'level_claimed': {'category': 'other', 'text': text, 'design_ref': ref},
-            'level_note': note,
+            'level_note': note + ('; rules read the behaviour-preserving normal form of the tree (sa/engines/norm.py)'
+                                  if pid in NORMAL_FORM_PROPS else '; rules read the tree as written, single rules resolve '
+                                  'temporaries / guard forms through sa/props/_common.py'),
             'technique': 'static analysis: ' + tech,
         })
     na = [{'property_id': k, 'reason': v} for k, v in sorted(NOT_APPLICABLE.items())]
@@ -253,14 +256,15 @@ def manifest(built):
     na.sort(key=lambda d: d['property_id'])
     return {
         'version': 1,
-        'setup_cmd': '/venv/bin/python -m compileall -q sa',
+        'setup_cmd': '/venv/bin/python -m compileall -q sa && /venv/bin/python -m sa.cli warm',
         'hooks': {'guard': 'ONSAGER_VERIF', 'enable': 'none needed: the checks parse /repo and never run it',
                   'baseline_off_cmd': 'cd /repo && /venv/bin/python -m pytest -ra -q -p no:cacheprovider --timeout=900 '
                                       '--continue-on-collection-errors',
                   'source_commits': [], 'add_only': True},
         'engines': [{'name': 'sa', 'path': '/verif/sa', 'serves_properties': sorted(built),
                      'kind_free_text': 'repository-specific static analyser on Python ast/symtable (stdlib only); '
-                                       'parses the working tree on every run, never imports onsager'}],
+                                       'parses the working tree on every run, never imports onsager; the tree form each '
+                                       'check reads (as written / normal form) is declared per property in sa/model.py'}],
         'checks': checks,
         'not_applicable': na,
         'notes': 'All checks are static analysis (family fixed by the brief). Each decides the structural clause named '
